@@ -683,7 +683,9 @@ func runFree(seed, iter int) freeResult {
 	call := []string{"schedule", "replace", "resume"}[iter%3]
 	mode := []string{"unbounded", "pool", "blocking"}[(iter/3)%3]
 	q := &sleepyQ{JobQueue: quartz.NewJobQueue(), r: &rng{s: r.next()}}
-	opts := []quartz.SchedulerOpt{quartz.WithQueue(q, &sync.Mutex{}), quartz.WithOutdatedThreshold(time.Hour)}
+	// the "never outdated" settings rotate with the plain one
+	thr := []time.Duration{time.Hour, time.Duration(math.MaxInt64), time.Duration(math.MaxInt64 / 2)}[(iter/9)%3]
+	opts := []quartz.SchedulerOpt{quartz.WithQueue(q, &sync.Mutex{}), quartz.WithOutdatedThreshold(thr)}
 	switch mode {
 	case "blocking":
 		opts = append(opts, quartz.WithBlockingExecution())
